@@ -132,9 +132,19 @@ func VerifC01JSONScript() {
 	case 2:
 		nonce = s
 	}
-	ctx := WithNonce(context.Background(), nonce)
+	// the nonce reaches the element through the context, an explicit string or a function
+	ctx := context.Background()
+	el := JSONScript(id, 1).WithType(typ)
+	switch symChoose(3) {
+	case 0:
+		ctx = WithNonce(ctx, nonce)
+	case 1:
+		el = el.WithNonceFromString(nonce)
+	case 2:
+		el = el.WithNonceFrom(func(context.Context) string { return nonce })
+	}
 	w := &verifRec{}
-	err := JSONScript(id, 1).WithType(typ).Render(ctx, w)
+	err := el.Render(ctx, w)
 	symAssert(err == nil, "JSONScript renders without error")
 	h := string(w.b)
 	symObserve("html", h)
